@@ -683,20 +683,35 @@ def abstract_agg(t):
     return tuple(abstract_agg(x) for x in t)
 
 
+MO_CASES = {  # truth of (multioutput is a str, == "raw_values", == "uniform_average") in each documented case
+    "raw_values": [{A_MO_STR: True, A_RAW: True, A_UNI: False}],
+    "uniform_average": [{A_MO_STR: True, A_RAW: False, A_UNI: True}],
+    "array": [{A_MO_STR: False, A_RAW: False, A_UNI: False}],
+}
+
+
+def _eval3(t, asg):
+    if t in asg:
+        return asg[t]
+    if t[0] == "not":
+        v = _eval3(t[1], asg)
+        return None if v is None else (not v)
+    if t[0] in ("and", "or"):
+        vs = [_eval3(x, asg) for x in t[1]]
+        if t[0] == "and":
+            return False if False in vs else (None if None in vs else True)
+        return True if True in vs else (None if None in vs else False)
+    return None
+
+
 def mo_cases(p):
-    raw, uni, isstr = p.cond(A_RAW), p.cond(A_UNI), p.cond(A_MO_STR)
-    if raw is True:
-        return {"raw_values"}
-    if uni is True:
-        return {"uniform_average"}
-    if isstr is False or (raw is False and uni is False):
-        return {"array"}
-    cases = {"raw_values", "uniform_average", "array"}
-    if raw is False:
-        cases.discard("raw_values")
-    if uni is False:
-        cases.discard("uniform_average")
-    return cases
+    """The documented multioutput cases a path can be taken in (its conditions are consistent with the case)."""
+    out = set()
+    for case, asgs in MO_CASES.items():
+        for asg in asgs:
+            if all(_eval3(a, asg) in (None, v) for a, v in p.conds):
+                out.add(case)
+    return out
 
 
 def tokens_of(name):
@@ -761,8 +776,7 @@ def rule_functions(ctx, w):
             bad = [p for p in normal if S.has_unknown(p.value)][0]
             ctx.undecided("R3", "%s:paths" % name, "return value not interpretable: %s" % show(bad.value)[:200], loc)
             continue
-        delegated = all(p.value[0] == "call" and p.value[1][0] == "f" and p.value[1][1].startswith("sklearn.metrics.")
-                        for p in normal)
+        delegated = all(_sk_call(p.value)[0] is not None for p in normal)
         if agg == "relative_loss":
             check_relative_loss(ctx, w, name, fn, normal, loc)
         elif "scaled" in toks:
@@ -1064,10 +1078,21 @@ def check_direct(ctx, w, name, fn, agg, toks, normal, params, loc):
         ctx.ok("R4", "%s:sibling" % name, "one expression serves the weighted and the unweighted case", loc, nontrivial=False)
 
 
+def _sk_call(t):
+    """(sklearn metric call, numpy ufunc applied to its result or None) if ``t`` delegates to sklearn.metrics."""
+    post = None
+    u = _unary(t)
+    if u is not None:
+        post, t = u
+    if t[0] == "call" and t[1][0] == "f" and t[1][1].startswith("sklearn.metrics."):
+        return t, post
+    return None, None
+
+
 def check_delegate(ctx, w, name, fn, agg, toks, normal, params, loc):
-    vals = {p.value for p in normal}
     items_name, items_roles, items_hw, items_mo, items_sq = [], [], [], [], []
-    for v in vals:
+    for p in normal:
+        v, post = _sk_call(p.value)
         kw = dict(v[3])
         target = v[1][1]
         items_name.append((target == "sklearn.metrics." + name and not v[2],
@@ -1078,10 +1103,25 @@ def check_delegate(ctx, w, name, fn, agg, toks, normal, params, loc):
                          % show(kw.get("sample_weight", NONE))))
         items_mo.append((role_verdict(kw.get("multioutput"), MO), "multioutput is not forwarded (got %s)" % show(kw.get("multioutput", NONE))))
         if "squared" in toks:
-            items_sq.append((kw.get("squared") == mk_not(SQ), "sklearn's `squared` must be `not square_root`, got %s"
-                             % show(kw.get("squared", K(True)))))
+            c = p.cond(SQ)
+            eff = kw.get("squared", K(True))
+            if c is not None and eff == mk_not(SQ):
+                eff = K(not c)
+            want = mk_not(SQ) if c is None else K(not c)
+            if post is None:
+                items_sq.append((eff == want, "square_root=%s: sklearn's `squared` must be `not square_root`, got %s"
+                                 % ("any" if c is None else c, show(eff))))
+            elif post == "numpy.sqrt" and eff == K(True) and c is True:
+                raw_only = mo_cases(p) <= {"raw_values"}
+                items_sq.append((raw_only, "square_root=True takes np.sqrt of sklearn's *averaged* MSE: with several outputs "
+                                           "(multioutput='uniform_average' or weights) that is sqrt(mean_k mse_k), not the RMSE "
+                                           "mean_k sqrt(mse_k) sklearn returns for squared=False (witness: two outputs with mse 1 and 4: "
+                                           "1.58 instead of 1.5)"))
+            else:
+                items_sq.append((False, "square_root=%s: result is %s(sklearn mse with squared=%s)" % (c, post, show(eff))))
         else:
-            items_sq.append(("squared" not in kw and "square_root" not in params, "unexpected squared/square_root on a non-squared metric"))
+            items_sq.append((post is None and "squared" not in kw and "square_root" not in params,
+                             "unexpected root / squared / square_root on a non-squared metric"))
     _all(ctx, "R5", "%s:delegate" % name, items_name, "delegates to the same-named sklearn metric", loc)
     _all(ctx, "R5", "%s:sqrt" % name, items_sq, "squared = not square_root", loc)
     _all(ctx, "R3", "%s:roles" % name, items_roles, "roles kept", loc)
@@ -1357,6 +1397,8 @@ def run(ctx):
                "y_pred_benchmark are two-dimensional (n, k); np.average aligns 1-D weights with `axis`; sklearn 0.24 "
                "_weighted_percentile tiles 1-D sample_weight over the columns; numpy broadcasting aligns trailing axes")
     ctx.assume("np.asarray / np.expand_dims / check_series (proved to return its argument) do not change values")
+    ctx.assume("sklearn.metrics.mean_squared_error(squared=False) takes the root of the per-output errors *before* the "
+               "multioutput average (scikit-learn >= 0.23, the pinned 0.24 included)")
     ctx.assume("np.average(weights=None) is the plain mean; _weighted_percentile(percentile=50) is the weighted median; "
                "np.abs and np.square are even; np.maximum/np.minimum are symmetric; sklearn.metrics.mean_absolute_error / "
                "mean_squared_error(squared=) / median_absolute_error implement the same-named formulas (external)")
